@@ -675,6 +675,68 @@ def source_history_exhaustive(ctx, n, stride=1):
         del prog
 
 
+def edge_history_exhaustive(ctx, n, stride=1):
+  """All digraphs on n nodes x placements of three source-free bindings (two
+  of one variable, one of another) x every absent edge (forward, back, self
+  loops excluded).  History: all queries; ConnectTo(the edge); all queries.
+  Each answer is compared with a Program built from scratch in that state."""
+  import itertools
+  from props import c07_solver
+  from vlib import tg
+  pairs = [(a, b) for a in range(n) for b in range(n) if a != b]
+  sets_ = [(0,), (1,), (2,), (0, 2), (1, 2), (0, 1)]
+  qs = [(node, S) for node in range(n) for S in sets_]
+  idx = 0
+  for mask in range(1 << len(pairs)):
+    edges = [list(pairs[i]) for i in range(len(pairs)) if mask >> i & 1]
+    absent = [pairs[i] for i in range(len(pairs)) if not mask >> i & 1]
+    if not absent:
+      continue
+    for w0, w1, w2 in itertools.product(range(n), repeat=3):
+      if w0 > w1:
+        continue
+      base = {"n": n, "edges": edges, "nv": 2,
+              "bindings": [[0, [[w0, [[]]]]], [0, [[w1, [[]]]]],
+                           [1, [[w2, [[]]]]]]}
+      want0 = None
+      for a, b in absent:
+        idx += 1
+        if idx % (ctx.nshards * stride) != ctx.shard * stride:
+          continue
+        after = dict(base, edges=edges + [[a, b]])
+        closes_cycle = not tg.is_acyclic(after) and tg.is_acyclic(base)
+        if want0 is None:
+          want0 = {q: c07_solver.ask_fresh(base, q[0], q[1]) for q in qs}
+        want1 = {q: c07_solver.ask_fresh(after, q[0], q[1]) for q in qs}
+        prog, nodes, _, binds = tg.build(base)
+        hist = []
+        for phase, want in (("before", want0), ("after", want1)):
+          if phase == "after":
+            nodes[a].ConnectTo(nodes[b])
+            hist.append(["edge", a, b])
+          for node, S in qs:
+            live = nodes[node].HasCombination([binds[i] for i in S])
+            hist.append(["has", node, list(S)])
+            ctx.case(key=("EH", n, mask, w0, w1, w2, a, b, len(hist)),
+                     nontrivial=phase == "after",
+                     sample=("%s | then n%d.ConnectTo(n%d)%s: n%d %s" % (
+                         c07_solver.fmt_spec(base), a, b,
+                         " (closes a cycle)" if closes_cycle else "", node,
+                         list(S)) if idx % 6007 == 0 and phase == "after" and
+                             node == 0 and S == (0, 2) else None),
+                     classes=["EH:closes-cycle" if closes_cycle else
+                              "EH:other-edge"])
+            if live != want[(node, S)]:
+              ctx.check(False, "stale-answer-after-new-edge:" + (
+                  "closing-a-cycle" if closes_cycle else "other"),
+                        "phase %s: HasCombination(%s) at n%d = %s on the "
+                        "long-lived Program, %s on a fresh one; %s; history %s"
+                        % (phase, list(S), node, live, want[(node, S)],
+                           c07_solver.fmt_spec(base), hist[-8:]),
+                        {"spec": base, "edge_history": hist})
+        del prog
+
+
 def cond_history_search(ctx, n_examples):
   """Random larger graphs (sources, several origins): a generated sequence of
   condition assignments / removals interleaved with queries."""
@@ -743,6 +805,7 @@ def run_shard(ctx):
     cond_history_exhaustive(ctx, 4, chain_only=True)
   cond_history_search(ctx, 150 if ctx.quick() else 6000)
   source_history_exhaustive(ctx, 3, stride=3 if ctx.quick() else 1)
+  edge_history_exhaustive(ctx, 3, stride=2 if ctx.quick() else 1)
   query_order_exhaustive(ctx, 3, chain_only=False)
   query_order_exhaustive(ctx, 4, chain_only=True)
   if not ctx.quick():
@@ -766,6 +829,24 @@ def check_ops(ops):
 
 def replay(ctx, case):
   ctx.case(key=repr(case), nontrivial=True)
+  if "edge_history" in case:
+    from props import c07_solver
+    from vlib import tg
+    spec = case["spec"]
+    prog, nodes, _, binds = tg.build(spec)
+    cur = dict(spec)
+    for st_ in case["edge_history"]:
+      if st_[0] == "edge":
+        nodes[st_[1]].ConnectTo(nodes[st_[2]])
+        cur = dict(cur, edges=list(cur["edges"]) + [[st_[1], st_[2]]])
+        continue
+      _, node, S = st_
+      live = nodes[node].HasCombination([binds[i] for i in S])
+      want = c07_solver.ask_fresh(cur, node, S)
+      if live != want:
+        raise Violation("stale-answer-after-new-edge",
+                        "n%d %s: %s vs fresh %s" % (node, S, live, want), case)
+    return
   if "source_history" in case:
     from props import c07_solver
     from vlib import tg
